@@ -14,4 +14,54 @@ TEXT = {
         "note": "Trusted: Lean kernel (+ propext, Quot.sound, Classical.choice), driver, harness; helper variables are assumed to come from a counter that never collides with candidate variables (true of VariableMap).",
         "technique": "Lean 4 proof of soundness/completeness of the log-encoding for unbounded add sequences + exact clause correspondence via hook",
     },
+    "C01": {
+        "text": "Partial proof + verified per-run oracle. Proved in Lean for all universes/problems/selections: the executable checker validB decides the full statement of C01 (Valid: root requirements and constraints, requirements and constrains of every selected solvable with unions, no excluded / Unknown-dependency / locked-out solvable except directly named soft requirements, one solvable per package) and every non-learnt clause of a solver history accepted by the abstract system is satisfied by every valid selection. On every run the check (a) evaluates validB on every answer the real solver returns on thousands of generated universes (all hint patterns, unions, locks, exclusions, Unknown deps, missing packages, cycles, soft requirements; debug and release builds) and (b) replays the solver's recorded history through the verified abstract checker. The universal claim about the search procedure itself is not yet proved (refinement obligations listed in the evidence).",
+        "note": "Trusted: Lean kernel (+propext, Classical.choice, Quot.sound), Spec.lean as the reading of C01, the harness/provider tables, the hook emission. Correspondence is sampled. WF provider contract assumed.",
+        "technique": "Lean 4 proof that the validity oracle is exact + provenance soundness of accepted histories; oracle evaluated on every implementation answer",
+    },
+    "C02": {
+        "text": "Proof of a certifying checker. Lean theorems (all universes, problems and histories, no size bound): (1) fail_sound / unsat_certified: if the solver history recorded by the verif-hooks feature is accepted by the abstract system (every clause has true provenance in the provider's data, every implied assignment is a unit consequence of its reason clause, every learnt clause is RUP-derivable from its recorded antecedents, the final conflict clause is falsified by a trail whose only decision is the root) then the hard problem has no valid solution; (2) decideSolvable (verified DPLL on a verified reference encoding) decides solvability; (3) Solvable is invariant under candidate order, ranks, favored candidates and hints. Every run replays every implementation history through (1) and compares every verdict with (2). Not proved: that the search always terminates with a verdict.",
+        "note": "Trusted: Lean kernel, driver compilation, hook emission faithfulness (omissions cause rejection), harness. CandsKnown assumed for the reference procedure (checked by the driver per case).",
+        "technique": "Lean 4 verified UNSAT-certificate checker (RUP + provenance + unit reasons) over the implementation's history, plus verified independent decision procedure",
+    },
+    "C04": {
+        "text": "Exploration backed by verified oracles (claimed partial). Every generated case (solve, soft, conflict-free families; all hint patterns x exclusions x locks x soft x cycles x own-package constrains x repeated union members) runs the real solve, Conflict::graph, graphviz and display_user_friendly under catch_unwind with a per-case watchdog and an address-space limit, in debug-assertion and release builds; a panic, hang or runaway allocation on a well-formed provider is a failing input. Four genuine defects found this way were repaired (see known_findings.json). No universal termination/panic-freedom theorem about the search is proved.",
+        "note": "Partial: universal termination and absence of panics are NOT proved; the check explores. Trusted: harness watchdog, WF filter of the driver.",
+        "technique": "differential/robustness exploration in two build profiles with verified oracles (Lean) deciding well-formedness and outcomes; no universal proof",
+    },
+    "C05": {
+        "text": "Partial proof + per-run oracle: Supported is defined inductively as in the property; Lean proves that the executable closure only contains supported solvables; the check evaluates supportedB on every solution the implementation returns, including shapes where the search backtracks over candidates whose dependencies were already selected.",
+        "note": "The converse (closure completeness) and the universal statement about the search are not yet proved. Trusted as C01.",
+        "technique": "Lean 4 soundness proof of the support-closure oracle + evaluation on every implementation answer",
+    },
+    "C07": {
+        "text": "Partial proof + per-run oracle: Lean characterises the first choice in the SolverCache model (matching favored candidate first, otherwise a matching candidate of minimal rank; union members in listed order); the driver computes the preferred closure, decides C07's hypothesis (closure valid and each requirement met only by its own first choice) and requires the implementation's solution to equal the closure on every conflict-free case, over all hint patterns.",
+        "note": "Universal statement about the search not yet proved. Trusted as C01.",
+        "technique": "Lean 4 lemmas on candidate ordering + executable preferred-closure oracle compared with every implementation answer",
+    },
+    "C08": {
+        "text": "Partial proof + per-run oracle: the hypothesis (some valid solution contains the first-ranked candidate of every single-package root requirement) is decided exactly by the verified DPLL on the verified reference encoding plus unit clauses (with_units_iff); when it holds the implementation's solution must contain all those candidates, on families with conflicts below the root requirements.",
+        "note": "Universal statement about the search (explicit-first rule vs activity/backjumping) not yet proved.",
+        "technique": "Lean 4 verified decision of the hypothesis + comparison with every implementation answer",
+    },
+    "C09": {
+        "text": "Per-run verified-oracle check + cache-level proof: the provider call log of every sync run without hints must be causal (get_dependencies only for soft requirements or matching candidates of requirements already obtained; get_candidates only for names already mentioned) and duplicate-free; SolverCache's own at-most-once behaviour is proved on its model and the model's call log is compared exactly with the real SolverCache.",
+        "note": "Exactness on conflict-free problems is checked through C07's preferred closure. Universal statement for the solver not yet proved.",
+        "technique": "executable causality oracle over the real call log + Lean proof of cache idempotence + exact cache correspondence",
+    },
+    "C14": {
+        "text": "Partial proof + per-run oracles on the soft family (compatible, incompatible, duplicate, other-version, excluded, locked-out, Unknown-dependency soft solvables in any order): validB with the documented exemption on every answer; a solvable hard problem (verified decideSolvable) must not yield Unsolvable; histories accepted by the abstract system (Lean: an accepted history never fails on a solvable problem); no panic in debug or release. Two genuine defects (two solvables of one package; debug assertion on an excluded soft solvable) were found and repaired.",
+        "note": "C14(c) (a compatible soft solvable is included) is not yet checked; universal statement not proved.",
+        "technique": "Lean 4 verified oracles (validB, decideSolvable, history checker) evaluated on every implementation run of the soft family",
+    },
+    "C18": {
+        "text": "Proof: Lean theorems about a literal model of Arena (chunked append-only storage) and of the interning tables of Pool, for every interleaving of intern/resolve/lookup of any length and every positive chunk size: ids are dense in allocation order; a later alloc changes no existing (chunk, offset) address and no stored value; no chunk ever exceeds its reserved capacity; interning twice returns the same id and changes nothing; resolve(intern v) = v; different values never share an id; lookup agrees with intern. Tied to src/internal/arena.rs and src/utils/pool.rs by exact I/O correspondence on random op sequences against the real Pool, including a runtime check that references taken at intern time keep their machine address and contents after later insertions.",
+        "note": "Memory validity of references obtained through UnsafeCell is not proved (model addresses = (chunk, offset)); relies on Vec::with_capacity not reallocating below capacity.",
+        "technique": "Lean 4 invariant proof (arena shape + partial bijection) + differential correspondence incl. address stability",
+    },
+    "C20": {
+        "text": "Proof: Lean theorems about the SolverCache model for every provider table and every operation sequence: matching / non-matching partition the candidate list in order; sorted candidates are the matching ones in sort order with the favored candidate rotated to the front and the relative order of the others unchanged; unions concatenate in listed order; answers are independent of cache state (repeated queries return identical contents) and a repeated query does not reach the provider; the availability query is true exactly for hinted or fetched solvables. Tied to src/solver/cache.rs by exact comparison of answers and provider call logs on the real public SolverCache (all hint patterns, favored inside/outside the version set, re-entrant calls from sort_candidates).",
+        "note": "Provider contract assumed (pure filter, stable sort by key). elsa::FrozenMap first-insert-wins semantics trusted.",
+        "technique": "Lean 4 proofs on a state-machine model of SolverCache + exact I/O and call-log correspondence",
+    },
 }
